@@ -34,3 +34,4 @@ def run(check: Check, repo: Repo, tier: str) -> None:
     X.shared_trackers(check, repo)
     X.cancel_catch(check, repo, mods)
     X.abort_wrap(check, repo)
+    X.cancel_drains(check, repo)
